@@ -500,8 +500,10 @@ def read_obj(kind, obj):
 OPS = {">": "__gt__", "<": "__lt__", ">=": "__ge__", "<=": "__le__", "=": "__eq__", "!=": "__ne__"}
 
 
-def apply_derivation(obj, step):
+def apply_derivation(obj, step, root=None):
     k = step[0]
+    if k == "colfilt":      # a single column narrowed by a condition on a column of the opened sequence
+        return obj[getattr(root[step[1]], OPS[step[2]])(step[3])]
     if k == "cols":
         return obj[tuple(step[1])]
     if k == "filt":
@@ -546,11 +548,22 @@ def gen_history(rng, n_ops):
             k = rng.choice(seqs)
             ops.append(("derive", k, ("int", rng.randint(0, 3))))
             live.append(("seq", live[k][1]))
-        elif r < 0.54:
+        elif r < 0.50:
             k = rng.choice(seqs)
             ops.append(("derive", k, ("child", rng.choice(live[k][1]))))
             live.append(("col", None))
-        elif r < 0.74:
+        elif r < 0.58:
+            # derive again from a single column: col[a:b:k] or col[root.name OP value]
+            cols_ = [i for i, (kk, _) in enumerate(live) if kk == "col"]
+            if not cols_:
+                continue
+            k = rng.choice(cols_)
+            if rng.random() < 0.5:
+                ops.append(("derive", k, ("slice", rng.choice([None, 0, 1]), rng.choice([None, 3, 6]), rng.choice([None, 1, 2]))))
+            else:
+                ops.append(("derive", k, ("colfilt", rng.choice(["i", "f"]), rng.choice(list(OPS)), rng.choice([1, 2, 3, 2.5]))))
+            live.append(("col", None))
+        elif r < 0.76:
             ops.append(("read", rng.randrange(len(live))))
         elif r < 0.82:
             ops.append(("array", rng.choice([(0,), (slice(None), 1), (Ellipsis, slice(0, 2)), (1, slice(1, None)), ()])))
@@ -630,8 +643,9 @@ class HistoryRun:
                 try:
                     if op[0] == "derive":
                         kind, obj, rec = self.live[op[1]]
-                        new = apply_derivation(obj, op[2])
-                        self.live.append(("col" if op[2][0] == "child" else "seq", new, rec + [op[2]]))
+                        new = apply_derivation(obj, op[2], sim.ds["s"])
+                        self.live.append(("col" if (op[2][0] in ("child", "colfilt") or kind == "col") else "seq", new,
+                                          rec + [op[2]]))
                     elif op[0] == "read":
                         self.read(op[1])
                     elif op[0] == "array":
@@ -698,7 +712,7 @@ class HistoryRun:
             o = fresh.ds["s"]
             try:
                 for st in rec:
-                    o = apply_derivation(o, st)
+                    o = apply_derivation(o, st, fresh.ds["s"])
                 v = read_obj(kind, o)
             except Exception as e:
                 v = "escaped:" + type(e).__name__
